@@ -1,11 +1,14 @@
 package checks
 
 import (
+	"bytes"
 	"encoding/json"
 	"fmt"
 	"strings"
+	"sync"
 
 	"github.com/facebookincubator/tacquito/cmds/server/config"
+	reallog "github.com/facebookincubator/tacquito/cmds/server/log"
 
 	"verif/mc/evid"
 	"verif/mc/srvx"
@@ -21,7 +24,7 @@ func init() {
 					"configuration plane: 4 configurations (main; both scopes served from one keychain entry; a third scope sharing an entry; unassigned scope + unknown handler/provider types + duplicate user) each loaded alone and reloaded over each other, every call the loader makes on the logger searched for the shared secrets, then a login served; " +
 					"histories: depth <= 3 over the C10 core alphabet, depth 3 over the ASCII-login packets plus passwords containing a non-ASCII byte (which travel the decode-error paths), and depth 2 over the full alphabet (x 2 session ids), plus the full START product action{1,2,4} x type{1..6} x service{0,1,2} x minor{0,1} x first sequence number{1,3,255} carrying a password token (right and, for PAP, wrong) in data, alone and followed by a CONTINUE. " +
 					"A token counts as a presented password when it travels in the data of a START whose authen_type is PAP or in the CONTINUE answering GETPASS (a token sent anywhere else, e.g. typed as a user name, is dropped from the watch list for that history). " +
-					"Oracle after every packet: no watched token and no shared secret occurs in any formatted message, in any Record value whose key the same call does not list as obscured, in any field selected by key in a Set (retention) call, " +
+					"Every call is also forwarded to the repository's own logger (cmds/server/log at debug level) writing into a buffer. Oracle after every packet: no watched token and no shared secret occurs in that output, in any formatted message, in any Record value whose key the same call does not list as obscured, in any field selected by key in a Set (retention) call, " +
 					"or in any reply handed to a response logger. states = distinct session-stage states; transitions = packets delivered",
 				Assumptions: []string{"tokens are disjoint from every user name and constant of the configuration; substring search on rendered text"}}
 		},
@@ -29,6 +32,48 @@ func init() {
 		Run:     c18Run,
 		Replay:  c18Replay,
 	}
+}
+
+// c18Out collects what the repository's own logger (cmds/server/log, debug level) writes while the recording logger
+// forwards every call to it: the bytes that would reach the log file.
+type c18Sink struct {
+	mu sync.Mutex
+	b  bytes.Buffer
+}
+
+func (s *c18Sink) Write(p []byte) (int, error) {
+	s.mu.Lock()
+	defer s.mu.Unlock()
+	return s.b.Write(p)
+}
+
+func (s *c18Sink) take() string {
+	s.mu.Lock()
+	defer s.mu.Unlock()
+	out := s.b.String()
+	s.b.Reset()
+	return out
+}
+
+var c18Out = &c18Sink{}
+
+// searchOutput looks for a token in the real logger's output since the last call.
+func searchOutput(tokens []string) (line, token string) {
+	out := c18Out.take()
+	for _, t := range tokens {
+		if t == "" {
+			continue
+		}
+		if i := strings.Index(out, t); i >= 0 {
+			a := strings.LastIndexByte(out[:i], '\n') + 1
+			b := strings.IndexByte(out[i:], '\n')
+			if b < 0 {
+				b = len(out) - i
+			}
+			return trunc(out[a:i+b], 300), t
+		}
+	}
+	return "", ""
 }
 
 // c18Watch tracks which tokens are presented passwords in the current history.
@@ -86,6 +131,15 @@ func (w *c18Watch) step(s stepInfo) (kind, msg string) {
 		}
 	}
 	watched = append(watched, w.secrets...)
+	if line, tok := searchOutput(watched); line != "" {
+		what := "a password"
+		for _, k := range w.secrets {
+			if k == tok {
+				what = "the shared secret"
+			}
+		}
+		return "leak/log-output", fmt.Sprintf("%s is in the output of the repository's own logger (debug level): %s (packet %s, stage %q)", what, line, p.String(), stage)
+	}
 	if where, tok := searchLogs(s.Logs, watched); where != "" {
 		what := "a password"
 		for _, k := range w.secrets {
@@ -143,6 +197,7 @@ func searchLogs(calls []srvx.LogCall, tokens []string) (where, token string) {
 }
 
 func c18Run(c *Ctx) {
+	rworldTee = reallog.New(30, c18Out)
 	e := c10Env(tokenSecrets(c.Seed), "ok")
 	// configuration plane: what the loader itself logs when a configuration is loaded and when another replaces it
 	{
@@ -303,6 +358,10 @@ func c18ConfigPlane(c *Ctx, e *rEnv, cs c18CfgCase) {
 	cfgs := c18Configs(e)
 	secrets := []string{e.Sec.Key1, e.Sec.Key2}
 	judge := func(when string, calls []srvx.LogCall) bool {
+		if line, _ := searchOutput(secrets); line != "" {
+			c.R.ViolateMin("leak/config/log-output", fmt.Sprintf("a shared secret is in the output of the repository's own logger while %s: %s", when, line), cs, 1)
+			return false
+		}
 		if where, _ := searchLogs(calls, secrets); where != "" {
 			c.R.ViolateMin("leak/config/"+strings.SplitN(where, ":", 2)[0], fmt.Sprintf("a shared secret reached the logger while %s: %s", when, where), cs, 1)
 			return false
@@ -352,6 +411,7 @@ func rExploreTok(c *Ctx, e *rEnv, alpha []rPkt, depth int, step func(hist []rPkt
 }
 
 func c18Replay(c *Ctx, raw json.RawMessage) {
+	rworldTee = reallog.New(30, c18Out)
 	var cs rCase
 	json.Unmarshal(raw, &cs)
 	e := c10Env(tokenSecrets(c.Seed), "ok")
